@@ -727,18 +727,35 @@ static ares_bool_t ares_servers_remove_stale(ares_channel_t *channel,
 {
   ares_bool_t        stale_removed = ARES_FALSE;
   ares_slist_node_t *snode         = ares_slist_node_first(channel->servers);
+  ares_llist_t      *stale         = ares_llist_create(NULL);
+  ares_server_t     *server;
 
+  /* Unlink every stale server before destroying any of them.  Destroying a
+   * server closes its connections and re-queues the queries that were
+   * outstanding on them; those must only be sent to servers of the new
+   * configuration, not to another server that is about to be removed. */
   while (snode != NULL) {
-    ares_slist_node_t   *snext  = ares_slist_node_next(snode);
-    const ares_server_t *server = ares_slist_node_val(snode);
+    ares_slist_node_t *snext = ares_slist_node_next(snode);
+    server                   = ares_slist_node_val(snode);
     if (!ares_server_in_newconfig(server, srvlist)) {
-      /* This will clean up all server state via the destruction callback and
-       * move any queries to new servers */
-      ares_slist_node_destroy(snode);
+      ares_slist_node_claim(snode);
       stale_removed = ARES_TRUE;
+      if (stale == NULL || ares_llist_insert_last(stale, server) == NULL) {
+        /* Out of memory: can't defer, clean up all server state and move any
+         * queries to other servers right away */
+        ares_destroy_server(server); /* LCOV_EXCL_LINE: OutOfMemory */
+      }
     }
     snode = snext;
   }
+
+  /* This will clean up all server state and move any queries to new servers */
+  while ((server = ares_llist_first_val(stale)) != NULL) {
+    ares_llist_node_claim(ares_llist_node_first(stale));
+    ares_destroy_server(server);
+  }
+  ares_llist_destroy(stale);
+
   return stale_removed;
 }
 
